@@ -581,9 +581,8 @@ class ReadBack(Oracle):
         return fails
 
 
-def glob_to_re(g):
-    """the modelled glob subset with literal_separator = false; globset matches bytes"""
-    gb = g.encode("utf-8")
+def _glob_rx(gb):
+    """globset syntax (literal_separator = false) -> regex over bytes: * ? \\x [..] [!..] {a,b}"""
     out, i = b"", 0
     while i < len(gb):
         c = gb[i:i + 1]
@@ -594,10 +593,38 @@ def glob_to_re(g):
         elif c == b"\\" and i + 1 < len(gb):
             i += 1
             out += re.escape(gb[i:i + 1])
+        elif c == b"[":
+            j = i + 1
+            neg = gb[j:j + 1] in (b"!", b"^")
+            if neg:
+                j += 1
+            items = b""
+            first = True
+            while j < len(gb) and (gb[j:j + 1] != b"]" or first):
+                ch = gb[j:j + 1]
+                if gb[j + 1:j + 2] == b"-" and j + 2 < len(gb) and gb[j + 2:j + 3] != b"]":
+                    items += re.escape(ch) + b"-" + re.escape(gb[j + 2:j + 3])
+                    j += 3
+                else:
+                    items += re.escape(ch)
+                    j += 1
+                first = False
+            out += b"[" + (b"^" if neg else b"") + items + b"]"
+            i = j
+        elif c == b"{":
+            j = gb.index(b"}", i)
+            alts = gb[i + 1:j].split(b",")
+            out += b"(?:" + b"|".join(_glob_rx(a) for a in alts) + b")"
+            i = j
         else:
             out += re.escape(c)
         i += 1
-    rx = re.compile(b"^" + out + b"$", re.S)
+    return out
+
+
+def glob_to_re(g):
+    """globset matches bytes"""
+    rx = re.compile(b"^" + _glob_rx(g.encode("utf-8")) + b"$", re.S)
 
     class M:
         @staticmethod
@@ -642,6 +669,25 @@ class Listing(Oracle):
                 # get_or_created_staged_inventory runs before anything can fail for another reason
                 if oid in self.committed and not (o == "err:notFound" and oid not in self.staged and False):
                     self.staged.add(oid)
+        if op in ("ls", "lsstaged"):
+            # a listing requested by the history itself (any glob syntax): exactly the matching ids
+            garg = st["h"].split(" ")[1]
+            pool = self.committed if op == "ls" else self.staged
+            if garg == "-":
+                want = sorted(pool)
+            else:
+                g = unhx(garg).decode("utf-8")
+                try:
+                    want = sorted(x for x in pool if glob_to_re(g).match(x))
+                except (re.error, ValueError):
+                    return []
+            self.checks += 1
+            if not ok(resp):
+                return ["`%s %r` failed: %s" % (op, garg if garg == "-" else g, resp[:100])]
+            got = sorted(x[0] for x in jbody(resp)["objects"])
+            if got != want:
+                return ["`%s %r` lists %s, the ids matching are %s" % (op, "-" if garg == "-" else g, got, want)]
+            return []
         if st["kind"] != "mut":
             return []
         self.checks += 1
